@@ -111,6 +111,27 @@ Definition in_sub_keys (i : cfg_input) : list str :=
 Definition in_cookie_names (i : cfg_input) : list str :=
   match i with CICaddyfile ds => concat (map (fun d => match d with DCookieName n => [n] | _ => [] end) ds) | CIJson f => [f_cookie f] | CILegacy _ => [] end.
 
+(* is (key, algorithm) what some directive / the options ask for, for the publisher (pub = true) or subscriber role *)
+Definition jwt_of (pub : bool) (d : directive) : option (str * option str) :=
+  match d, pub with DPublisherJWT k a, true => Some (k, a) | DSubscriberJWT k a, false => Some (k, a) | _, _ => None end.
+Definition in_pair_ok (pub : bool) (i : cfg_input) (p : str * str) : bool :=
+  let '(k, a) := p in
+  match i with
+  | CICaddyfile ds =>
+      (* an algorithm written with the key, or - when the directive gives none - the default or one written earlier *)
+      let inherited := str_eqb a s_hs256 ||
+                       existsb (fun d => match jwt_of pub d with Some (_, Some a') => str_eqb a a' | _ => false end) ds in
+      existsb (fun d => match jwt_of pub d with
+                        | Some (k', Some ((_ :: _) as a')) => str_eqb k k' && str_eqb a a'
+                        | Some (k', _) => str_eqb k k' && inherited
+                        | None => false
+                        end) ds
+  | CIJson f => match (if pub then f_pub f else f_sub f) with Some (k', a') => str_eqb k k' && str_eqb a (alg_of a') | None => false end
+  | CILegacy l =>
+      str_eqb k (first_nonempty (if pub then l_pub_key l else l_sub_key l) (l_jwt_key l)) &&
+      str_eqb a (first_nonempty (if pub then l_pub_alg l else l_sub_alg l) (first_nonempty (l_jwt_alg l) s_hs256))
+  end.
+
 Definition implb' (a b : bool) : bool := negb a || b.
 Definition nonempty (s : str) : bool := match s with [] => false | _ => true end.
 
@@ -136,10 +157,10 @@ Definition cfg_spec_ok (c : cfg_case) : bool :=
       forallb (fun x => mem_str x (in_cors_origins i) && tab_origin_ok (cc_origtab c) x) (o_cors_origins o) &&
       forallb (fun p => implb' (snd p) (origin_allowed (in_publish_origins i) (fst p))) (combine (cc_origins c) (o_pubo o)) &&
       forallb (fun p => implb' (snd p) (origin_allowed (in_cors_origins i) (fst p))) (combine (cc_origins c) (o_cors o)) &&
-      (* only configured, usable keys verify tokens; without subscriber key every token is ignored only in anonymous mode *)
-      forallb (fun p => mem_str (fst p) (in_pub_keys i) && tab_key_ok (cc_keytab c) (snd p) (fst p)) (accepted_keys (cc_cands c) (o_pub_accept o)) &&
+      (* only configured, usable (key, algorithm) pairs verify tokens; without subscriber key every token is ignored only in anonymous mode *)
+      forallb (fun p => in_pair_ok true i p && tab_key_ok (cc_keytab c) (snd p) (fst p)) (accepted_keys (cc_cands c) (o_pub_accept o)) &&
       (if o_has_sub o
-       then forallb (fun p => mem_str (fst p) (in_sub_keys i) && tab_key_ok (cc_keytab c) (snd p) (fst p)) (accepted_keys (cc_cands c) (o_sub_accept o))
+       then forallb (fun p => in_pair_ok false i p && tab_key_ok (cc_keytab c) (snd p) (fst p)) (accepted_keys (cc_cands c) (o_sub_accept o))
        else in_anonymous i) &&
       (* the cookie consulted is a configured one or the default *)
       (mem_str (o_cookie o) (in_cookie_names i) || str_eqb (o_cookie o) s_default_cookie)
